@@ -16,6 +16,7 @@ import Dippy.Model.Wrappers
 import Dippy.Model.ProcState
 import Dippy.Model.Statusline
 import Dippy.Model.Sql
+import Dippy.Model.PyCli
 
 open Lean Dippy
 
@@ -475,6 +476,31 @@ def handle (j : Json) : R Json := do
       | .helpVersion => "sqlite3 help/version" | .readonlyMode => "sqlite3 (read-only mode)" | .initScript => "sqlite3 (init script)"
       | .interactive => "sqlite3 (interactive)" | .readOnlyQuery => "sqlite3 (read-only query)" | .writeQuery => "sqlite3 (write query)"
       | .unknownQuery => "sqlite3 (unknown query)")
+  | "py_classify" =>
+    -- resolve: [[token, path]], safe: [[path, bool]] recorded from the real run
+    let res := (arrD j "resolve").toList.map fun e => (strD (e.getArrVal? 0 |>.toOption.getD Json.null |> fun x => Json.mkObj [("v", x)]) "v" "", strD (e.getArrVal? 1 |>.toOption.getD Json.null |> fun x => Json.mkObj [("v", x)]) "v" "")
+    let safe := (arrD j "safe").toList.map fun e => (strD (e.getArrVal? 0 |>.toOption.getD Json.null |> fun x => Json.mkObj [("v", x)]) "v" "", (e.getArrVal? 1 |>.toOption.getD Json.null) == Json.bool true)
+    let env : PyCli.Env := {
+      resolve := fun _ t => ((res.find? (·.1 == t)).map (·.2)).getD "<oracle-miss>"
+      fileSafe := fun p => ((safe.find? (·.1 == p)).map (·.2)).getD false }
+    let v := PyCli.classify env (← str j "cwd") (← strList (j.getObjValD "tokens"))
+    return (match v with
+      | .interactive => Json.mkObj [("v", "interactive"), ("allow", false)]
+      | .safeFlag => Json.mkObj [("v", "safe-flag"), ("allow", true)]
+      | .inlineCode => Json.mkObj [("v", "inline-code"), ("allow", false)]
+      | .moduleCalendar => Json.mkObj [("v", "module-calendar"), ("allow", true)]
+      | .moduleOther => Json.mkObj [("v", "module-other"), ("allow", false)]
+      | .askOption => Json.mkObj [("v", "ask-option"), ("allow", false)]
+      | .noScript => Json.mkObj [("v", "no-script"), ("allow", false)]
+      | .analysed p sf => Json.mkObj [("v", "analysed"), ("path", Json.str p), ("allow", sf)])
+  | "py_runs" =>
+    return (match PyCli.pythonRuns false (← strList (j.getObjValD "args")) with
+      | .interactive => Json.mkObj [("runs", "interactive")]
+      | .infoOnly => Json.mkObj [("runs", "info")]
+      | .code c => Json.mkObj [("runs", "code"), ("src", Json.str c)]
+      | .module m => Json.mkObj [("runs", "module"), ("name", optStrJson m)]
+      | .stdin => Json.mkObj [("runs", "stdin")]
+      | .script s a => Json.mkObj [("runs", "script"), ("word", Json.str s), ("args", Json.arr (a.map Json.str).toArray)])
   | "bashquote" => return Json.str (bashQuote (← str j "s"))
   | "bashjoin" => return Json.str (bashJoin (← strList (j.getObjValD "tokens")))
   | "shellwords" =>
